@@ -113,6 +113,9 @@ impl PaddingFactory {
                 }
 
                 let (min_val, max_val) = (min_val.min(max_val), min_val.max(max_val));
+                // Sizes are returned as i32: clamp instead of wrapping into negative values
+                let max_val = max_val.min(i32::MAX as i64);
+                let min_val = min_val.min(max_val);
 
                 if min_val == max_val {
                     sizes.push(min_val as i32);
